@@ -24,7 +24,7 @@ from .. import tlc, local, evalmon, corpus, inputs
 
 PID = 'C12'
 
-CH = {'sur': u'\ud800', 'sq': "'", 'dq': '"', 'bs': '\\', 'nl': '\n', 'cr': '\r', 'nul': '\x00', 'lb': '{', 'na': u'é', 'n': 'n', 'x': 'x', 'zero': '0'}
+CH = {'hash': '#', 'pay2': '+zq_canary_name.system(zq_canary_name)', 'sur': u'\ud800', 'sq': "'", 'dq': '"', 'bs': '\\', 'nl': '\n', 'cr': '\r', 'nul': '\x00', 'lb': '{', 'na': u'é', 'n': 'n', 'x': 'x', 'zero': '0'}
 PAYLOAD = '+__import__("zq_canary_mod").system("zq_canary_cmd")+'
 IN = ['sq', 'dq', 'bs', 'nl', 'cr', 'nul', 'lb', 'na', 'n', 'x', 'zero']
 
@@ -49,6 +49,14 @@ def attack_strings():
         for n in (1, 2, 3):
             out.append(('sur',) + (q,) * n + ('na',) + (q,) * n)
             out.append((q,) * n + ('sur',) + (q,) * n + ('na',) + (q,) * n)
+    # a backslash in front of a quote (an escaping rule that forgets the backslash lets it swallow the closing quote), then quote-free code, then a comment
+    # character that hides the rest of the evaluated text
+    for q in ('sq', 'dq'):
+        for q2 in ((), ('sq',), ('dq',)):
+            for pre in ((), ('x',), ('sq',), ('dq',)):
+                for bsn in (1, 2, 3):
+                    out.append(pre + ('bs',) * bsn + (q, 'pay2', 'hash') + q2)
+                    out.append(pre + ('bs',) * bsn + (q, 'pay2', 'hash', 'nl', 'x') + q2)
     return out
 
 
